@@ -352,16 +352,16 @@ func judgeChain(dc DispCase, res chainResult) chainJudgement {
 		// (C)
 		j.class = "first-denied:" + reason
 		if len(res.seen) != 0 {
-			add("disp:first:request-sent-for-denied-delivery:" + reason)
+			add("disp:first:request-sent-for-denied-delivery")
 		}
 		deadOK := res.dead == 1 && res.deadReason == "policy_denied" && res.queued == 0 && res.leased == 0
 		if !deadOK {
-			add("disp:first:not-dead-policy_denied:" + reason)
+			add("disp:first:not-dead-policy_denied")
 		}
 		if len(res.attempts) != 1 {
-			add("disp:first:retried:" + reason)
+			add("disp:first:retried")
 		} else if o, dr := lastOutcome(); deadOK && (o != queue.AttemptOutcomeDead || dr != "policy_denied") {
-			add("disp:first:attempt-not-recorded-as-policy_denied:" + reason)
+			add("disp:first:attempt-not-recorded-as-policy_denied")
 		}
 		return j
 	case !dc.PolSpec.Redirects && n > 1:
@@ -383,12 +383,12 @@ func judgeChain(dc DispCase, res chainResult) chainJudgement {
 		}
 		deadOK := res.dead == 1 && res.deadReason == "policy_denied" && res.queued == 0 && res.leased == 0
 		if !deadOK {
-			add("disp:" + where + ":not-dead-policy_denied:" + reason)
+			add("disp:" + where + ":not-dead-policy_denied")
 		}
 		if len(res.attempts) > dc.Pre+1 {
-			add("disp:" + where + ":retried:" + reason)
+			add("disp:" + where + ":retried")
 		} else if o, dr := lastOutcome(); deadOK && len(res.attempts) == dc.Pre+1 && (o != queue.AttemptOutcomeDead || dr != "policy_denied") {
-			add("disp:" + where + ":attempt-not-recorded-as-policy_denied:" + reason)
+			add("disp:" + where + ":attempt-not-recorded-as-policy_denied")
 		}
 		ok := perPos[0] == dc.Pre+1
 		for i := 1; i < n; i++ {
@@ -505,7 +505,7 @@ func (rep *reporter) dispatcherFamily(t *testing.T, deadline time.Time, workers 
 	}
 	reported := map[string]bool{}
 	sampled := map[string]bool{}
-	boots, total, skipped := 0, 0, 0
+	boots, total, skipped, unjudged := 0, 0, 0, 0
 	pols := dispPolicies(thorough)
 	for _, dp := range pols {
 		for _, max := range dispMaxes(thorough) {
@@ -613,6 +613,7 @@ func (rep *reporter) dispatcherFamily(t *testing.T, deadline time.Time, workers 
 					r.Add("disp_class_"+strings.SplitN(x.j.class, ":", 2)[0], 1)
 					if x.j.unjudged != "" {
 						r.Add("disp_cases_unjudged", 1)
+						unjudged++
 					}
 					switch {
 					case strings.Contains(x.j.class, "denied"):
@@ -651,6 +652,11 @@ func (rep *reporter) dispatcherFamily(t *testing.T, deadline time.Time, workers 
 		}
 	}
 	r.Add("disp_boots", int64(boots))
+	if unjudged > 0 {
+		// (D)/(E) presuppose that an attempt answered 503 (or failed in the transport) is retried while attempt <= retry.max —
+		// C06's statement. Where that did not happen the case is not judged here, and the run does not claim to be complete.
+		r.NotExhaustive(fmt.Sprintf("%d dispatcher chain cases not judged: an earlier failed attempt of the message was not retried", unjudged))
+	}
 	if skipped > 0 {
 		r.NotExhaustive(fmt.Sprintf("wall budget reached: %d of %d dispatcher chain cases not run", skipped, total))
 	}
